@@ -27,7 +27,7 @@ import (
 	"github.com/jwhited/corebgp"
 )
 
-var raceEst, raceConns, raceDials atomic.Int64
+var raceEst, raceConns, raceDials, raceLogLines atomic.Int64
 
 var (
 	fRaceFrom = flag.Uint64("racefrom", 0, "first race scenario index")
@@ -136,6 +136,12 @@ func runRaceScenario(t *testing.T, seed uint64) {
 		w.Net = newNet(w)
 		simrt.SetPassthroughDial(w.Net.dial)
 		defer simrt.SetPassthroughDial(nil)
+		// a Logger (set before any corebgp goroutine exists): the arguments of every
+		// log line are evaluated and formatted under the race detector too
+		corebgp.SetLogger(func(v ...interface{}) {
+			_ = fmt.Sprint(v...)
+			raceLogLines.Add(1)
+		})
 		srv, err := corebgp.NewServer(netip.MustParseAddr("10.0.0.5"))
 		if err != nil {
 			t.Fatal(err)
@@ -288,7 +294,7 @@ func TestRace(t *testing.T) {
 				last, since = p, time.Now()
 			} else if time.Since(since) > 25*time.Second {
 				js, _ := json.Marshal(map[string]any{"scenarios": last, "wall_s": time.Since(start).Seconds(), "hung": true,
-					"sessions_established": raceEst.Load(), "connections": raceConns.Load(), "dial_attempts": raceDials.Load()})
+					"sessions_established": raceEst.Load(), "connections": raceConns.Load(), "dial_attempts": raceDials.Load(), "log_lines": raceLogLines.Load()})
 				if *fOut != "" {
 					os.WriteFile(*fOut, js, 0o644)
 				}
@@ -314,7 +320,7 @@ func TestRace(t *testing.T) {
 		progress.Store(int64(n))
 	}
 	js, _ := json.Marshal(map[string]any{"scenarios": n, "wall_s": time.Since(start).Seconds(), "sessions_established": raceEst.Load(),
-		"connections": raceConns.Load(), "dial_attempts": raceDials.Load()})
+		"connections": raceConns.Load(), "dial_attempts": raceDials.Load(), "log_lines": raceLogLines.Load()})
 	if *fOut != "" {
 		os.WriteFile(*fOut, js, 0o644)
 	}
